@@ -417,6 +417,11 @@ fn explore(ctx: &Ctx, rep: &mut Report, key_prefix: &'static str, label: &str, a
 /// thresholds, wrap-arounds of small indices).  The finder's verdict is re-derived by `run_history` on the
 /// ops actually applied, so that the replay artefact is an ordinary history.
 fn explore_cycles(ctx: &Ctx, rep: &mut Report, key_prefix: &'static str, label: &str, alphabet: Vec<Op>, start: Start, prefix: Vec<Op>, max_len: usize, reps: usize) {
+    explore_cycles_sparse(ctx, rep, key_prefix, label, alphabet, start, prefix, max_len, reps, 1)
+}
+
+/// The same with the full oracle only after every `oracle_every`-th repetition (long unrollings).
+fn explore_cycles_sparse(ctx: &Ctx, rep: &mut Report, key_prefix: &'static str, label: &str, alphabet: Vec<Op>, start: Start, prefix: Vec<Op>, max_len: usize, reps: usize, oracle_every: usize) {
     let n = alphabet.len();
     let mut unit = 0usize;
     let mut cycles = 0u64;
@@ -446,14 +451,14 @@ fn explore_cycles(ctx: &Ctx, rep: &mut Report, key_prefix: &'static str, label: 
                 continue;
             }
             cycles += 1;
-            run_cycle(rep, key_prefix, label, start, &prefix, &cycle, reps);
+            run_cycle(rep, key_prefix, label, start, &prefix, &cycle, reps, oracle_every);
         }
     }
     rep.count("cycles_unrolled", cycles);
     rep.note(format!("{}: every cycle of 1..={} ops over {} ops, unrolled {} times from start '{}' (disabled ops skipped), oracle after every repetition{}", label, max_len, n, reps, start.name(), if stopped { " (INCOMPLETE: wall cap)" } else { "" }));
 }
 
-fn run_cycle(rep: &mut Report, key_prefix: &'static str, label: &str, start: Start, prefix: &[Op], cycle: &[Op], reps: usize) {
+fn run_cycle(rep: &mut Report, key_prefix: &'static str, label: &str, start: Start, prefix: &[Op], cycle: &[Op], reps: usize, oracle_every: usize) {
     let mut applied: Vec<Op> = Vec::new();
     let mut meta = (0u64, 0u64, false);
     let mut oracle_runs = 0u64;
@@ -467,17 +472,21 @@ fn run_cycle(rep: &mut Report, key_prefix: &'static str, label: &str, start: Sta
             set_breadcrumb(format!("start: {}\nhistory: {}\n", start.name(), render(applied)).as_bytes());
             ex.apply(*op).map_err(|e| format!("step {} ({}): {}", applied.len(), op.name(), e))?;
         }
-        for _ in 0..reps {
+        for r in 0..reps {
             for op in cycle {
                 if !ex.enabled(*op) {
                     continue;
                 }
                 applied.push(*op);
-                set_breadcrumb(format!("start: {}\nhistory: {}\n", start.name(), render(applied)).as_bytes());
+                if oracle_every == 1 {
+                    set_breadcrumb(format!("start: {}\nhistory: {}\n", start.name(), render(applied)).as_bytes());
+                }
                 ex.apply(*op).map_err(|e| format!("step {} ({}): {}", applied.len(), op.name(), e))?;
             }
-            *oracle_runs += 1;
-            ex.oracle().map_err(|e| format!("after the last step: {}", e))?;
+            if (r + 1) % oracle_every == 0 || r + 1 == reps {
+                *oracle_runs += 1;
+                ex.oracle().map_err(|e| format!("after the last step: {}", e))?;
+            }
         }
         *meta = (ex.model_hash(), ex.outcome_hash(), ex.ever_consumed || ex.ever_hole || ex.ever_two_sides);
         ex.finish(applied.len() % 2 == 1).map_err(|e| format!("at the end: {}", e))
@@ -629,6 +638,9 @@ fn run(ctx: &Ctx) -> Report {
             explore_cycles(ctx, &mut rep, "C03", "C03 cycles, alphabet B", alphabet_b(), Start::Fresh, vec![], t.pick(3, 4), t.pick(16, 40));
             explore_cycles(ctx, &mut rep, "C03", "C03 cycles, reduced alphabet", alphabet_a_small(), Start::Fresh, vec![], t.pick(3, 4), t.pick(16, 40));
             explore_cycles(ctx, &mut rep, "C03", "C03 cycles, alphabet F", alphabet_f(), Start::Fresh, vec![], t.pick(3, 4), t.pick(16, 40));
+            // long pipes: well over a thousand slices buffered at once (limits such as IOV_MAX = 1024 live there)
+            let many = vec![a(K::PushBorrowed(3)), a(K::Push(257)), a(K::PushCopy(3)), a(K::Register(1)), a(K::Backfill(0)), a(K::Consume(1)), a(K::Read(300)), a(K::PushAnchored(300))];
+            explore_cycles_sparse(ctx, &mut rep, "C03", "C03 long unrollings (1100 repetitions)", many, Start::Fresh, vec![], 2, t.pick(1100, 2200), 275);
         }
         "C04" => {
             // the 16 single-pipe ops to the full depth; with the clone-while-pending op one level shallower
